@@ -2,7 +2,7 @@
    [aggregated_xorb_registers_cas] is regenerated from process_aggregated_data_as_xorb on every run. *)
 From Coq Require Import NArith Bool List.
 Import ListNotations.
-From XetModel Require Import Base.Codec Gen.ShardLayout Gen.DedupFacts Model.Merkle Model.Shard Model.Dedup Proofs.PipelineProofs.
+From XetModel Require Import Base.Codec Gen.ShardLayout Gen.DedupFacts Model.Merkle Model.Shard Model.Dedup Proofs.PipelineProofs Proofs.ResolveProofs Proofs.ReuploadProofs.
 Open Scope N_scope.
 
 (* invariant "every xorb handed to the upload path has its CAS info in the session shard", preserved by every session step *)
@@ -17,8 +17,69 @@ Proof. exact session_finalize_recorded. Qed.
 Theorem C11_aggregated_not_recorded_refuted :
   exists s, recorded session0 /\ s = session_finalize false (mkS (mkAgg [(ex_h 1, 10)] []) [] [] [] m0) /\ ~ recorded s.
 Proof. exact aggregated_not_recorded_refuted. Qed.
-(* "a later session finds every recorded chunk" is C05's completeness side; it is exercised end to end by stream sess
-   (re-uploads must not transfer chunk bytes beyond what fragmentation prevention withheld) *)
+
+(* the whole session, any sequence of mid-file xorbs and completed files: every xorb handed to the upload path is in the
+   session shard's CAS section *)
+Theorem C11_session_recorded : forall cf ops, recorded (srun true cf ops).
+Proof. exact srun_recorded. Qed.
+
+(* ... so every chunk of every file the session completed is found in the table built from that shard (first session
+   on an empty store; StoreOk/op_ok as for C01_session_records_resolve) *)
+Theorem C11_session_shard_covers_its_files : forall U cf ops, let s := srun true cf ops in
+  StoreOk (s_uploaded s) U -> Forall (op_ok (s_uploaded s) U) ops ->
+  forall cap g c, In g (ghosts ops) -> In c (snd g) -> InTable (shard_table (s_shard_cas s) cap) (fst c).
+Proof. exact first_session_shard_covers_its_files. Qed.
+
+(* a file whose chunks are all known to the data interface is deduplicated completely, for every split into blocks, every
+   table (any further shards, any run-length cap) -- as long as fragmentation prevention refuses no answer *)
+Theorem C11_known_file_stores_nothing : forall bbd cf ext blocks salt sha, AllowAll cf ->
+  (forall b c, In b blocks -> In c b -> InTable ext (fst c)) ->
+  let f := feed_blocks bbd cf ext fd0 blocks in
+  f_new f = [] /\ f_new_xorbs f = [] /\ f_registered f = []
+  /\ m_new_bytes (f_metrics f) = 0 /\ m_new_chunks (f_metrics f) = 0
+  /\ a_chunks (snd (fst (fst (fd_finalize f salt sha)))) = []
+  /\ snd (fd_finalize f salt sha) = [].
+Proof. exact reupload_file_stores_nothing. Qed.
+Theorem C11_no_refusal_when_switched_off : forall cf, c_min_cpr_num cf = 0 -> AllowAll cf.
+Proof. exact min_cpr_zero_allows. Qed.
+
+(* the two composed: re-uploading a file a session completed, to a deduper that sees that session's shard *)
+Theorem C11_reupload_after_session : forall U cf ops, let s := srun true cf ops in
+  StoreOk (s_uploaded s) U -> Forall (op_ok (s_uploaded s) U) ops ->
+  forall bbd cf2 more cap g blocks salt sha, AllowAll cf2 -> In g (ghosts ops) -> concat blocks = snd g ->
+  let f := feed_blocks bbd cf2 (shard_table (s_shard_cas s) cap ++ more) fd0 blocks in
+  f_new f = [] /\ f_new_xorbs f = [] /\ f_registered f = [] /\ m_new_bytes (f_metrics f) = 0 /\ m_new_chunks (f_metrics f) = 0
+  /\ a_chunks (snd (fst (fst (fd_finalize f salt sha)))) = [] /\ snd (fd_finalize f salt sha) = [].
+Proof. exact reupload_after_session. Qed.
+
+(* a session made only of such files hands nothing to the upload path *)
+Theorem C11_chunkless_session_uploads_nothing : forall rc cf ops, Forall chunkless ops -> s_uploaded (srun rc cf ops) = [].
+Proof. exact chunkless_session_uploads_nothing. Qed.
+
+(* the premises are met by a concrete session and its file fed again in another split *)
+Theorem C11_reupload_example :
+  (f_new rx_f = [] /\ f_new_xorbs rx_f = [] /\ f_registered rx_f = [] /\ m_new_bytes (f_metrics rx_f) = 0 /\ m_new_chunks (f_metrics rx_f) = 0
+   /\ a_chunks (snd (fst (fst (fd_finalize rx_f (ex_h 0) None)))) = [] /\ snd (fd_finalize rx_f (ex_h 0) None) = [])
+  /\ m_deduped_bytes (f_metrics rx_f) = 40 /\ length (f_info rx_f) = 2%nat.
+Proof. exact rx_reupload. Qed.
+
+(* [AllowAll] cannot be dropped: with fragmentation prevention on, a known chunk whose answer is refused is stored again
+   (DefragPrevention's designed behaviour; the session oracle judges re-upload byte counts only when nothing was refused) *)
+Theorem C11_refusal_stores_known_chunk_again :
+  (forall c, In c [ex_c1; ex_c2; rx_c3] -> InTable rx_tbl (fst c))
+  /\ f_new (feed_blocks false rx_cfg_on rx_tbl fd0 [[ex_c1; ex_c2; rx_c3]]) = [rx_c3]
+  /\ m_new_bytes (f_metrics (feed_blocks false rx_cfg_on rx_tbl fd0 [[ex_c1; ex_c2; rx_c3]])) = 30
+  /\ m_defrag_chunks (f_metrics (feed_blocks false rx_cfg_on rx_tbl fd0 [[ex_c1; ex_c2; rx_c3]])) = 1.
+Proof. exact refusal_stores_known_chunk_again. Qed.
+(* that the on-disk lookup of a shard finds every chunk its CAS section lists is C05's completeness side, exercised end to
+   end by stream sess *)
 
 Print Assumptions C11_completion_recorded.
 Print Assumptions C11_finalize_recorded.
+Print Assumptions C11_session_recorded.
+Print Assumptions C11_session_shard_covers_its_files.
+Print Assumptions C11_known_file_stores_nothing.
+Print Assumptions C11_reupload_after_session.
+Print Assumptions C11_chunkless_session_uploads_nothing.
+Print Assumptions C11_reupload_example.
+Print Assumptions C11_refusal_stores_known_chunk_again.
